@@ -9,8 +9,9 @@ EXPLAIN = ('gas service (structural, necessary clauses): (R1) every token moveme
            'from the same token; (R3) transfer (token address, amount, counterparty) and the single event (token, '
            'parties) are the same parameter terms; (R4) exactly one transfer and one event on every success path, none '
            'repeatable.')
-NOT_DECIDED = ('the running balance equation over histories and "never more than it holds" for refund (delegated to the '
-               'token\'s own insufficiency check, T8).')
+NOT_DECIDED = ('the running balance equation is decided only through its inductive step (R1-R4: every successful entry moves exactly token.amount '
+               'of token.address in the direction its single event reports, and nothing else moves funds); the induction itself, direct third-party '
+               'transfers to the service, and "never more than it holds" for refund (the token\'s own insufficiency check, T8) are not decided.')
 ASSUME = ['T1', 'T2', 'T6', 'T8']
 CN = 'axelar_gas_service'
 MOVERS = ('transfer', 'transfer_from', 'burn', 'burn_from', 'approve', 'mint', 'clawback', 'set_admin')
